@@ -439,3 +439,74 @@ def check_mates(rep, tier, seed):
     stats["cases"] = len(cases)
     stats["candidate_positions"] = len(cand)
     return stats, kinds, cases
+
+
+# ----------------------------------------------------------------------------------------- C15
+
+def check_bounds(rep, tier, seed):
+    import subprocess, time
+    r = core.rng(seed, "C15")
+    cases = []
+    ngames = 6 if tier == "quick" else 60
+    for i in range(ngames):
+        root = [roots.START, roots.PERFT[1], roots.PERFT[5], "8/8/8/4k3/8/8/3QK3/8 w - - 0 1"][i % 4]
+        ops = ["new " + root]
+        n = 398 if i % 2 == 0 else r.randint(150, 398)
+        for _ in range(n):
+            ops.append("pushh %d" % r.randrange(1 << 30))
+        ops += ["obs", "ttnew", "search 3 -1 0", "search - %d 0" % (3000 if tier == "quick" else 60000), "moves u", "moves c"]
+        cases.append(ops)
+    special = [roots.SPECIAL[0], "4k3/P6P/8/8/8/8/p6p/4K3 w - - 0 1", "r3k2r/1P4P1/8/8/8/8/1p4p1/R3K2R w KQkq - 0 1",
+               "QQQQQQQQ/8/8/8/8/8/k7/4K2Q w - - 0 1", "3Q4/1Q4Q1/4Q3/2Q4R/Q4Q2/3Q4/1Q4Rp/1K1BBNNk w - - 0 1",
+               "n1n1k3/1P6/8/8/8/8/6p1/4K1N1 w - - 0 1", "1QQQQQQQ/Q6Q/Q6Q/Q3k2Q/Q6Q/Q6Q/Q6Q/QQQQQQQK w - -"]
+    for f in special:
+        cases.append(["new " + f, "obs", "moves u", "moves c", "ttnew", "search 2 -1 0", "search - 5000 0"])
+    # everything the reader accepts from a mutation stream, followed by generation and a shallow search
+    from . import textchk
+    for f in roots.ALL[::7]:
+        for s in textchk.mutations(r, f, 60 if tier == "quick" else 600):
+            if "\n" in s or "\r" in s:
+                continue
+            cases.append(["new " + s, "moves u", "moves c", "ttnew", "search 1 -1 0"])
+    stats, kinds = Counter(), Counter()
+    rust, _ = core.run_rust(cases, profile="checked", timeout=1500)
+    lean, lc = core.run_lean(cases, timeout=1500)
+    first = correspondence(rep, "C15", cases, rust, lean, stats)
+    maxlen = 0
+    for ci, case in enumerate(cases):
+        for oi, op in enumerate(case):
+            out = rust[ci][oi]
+            if out is None:
+                rep.violation("impl-vs-spec", f"harness died during `{op[:60]}` @ {case[0][:80]}", "", replay_ops=case[: oi + 1])
+                break
+            if out and out[0].startswith("fault:"):
+                rep.violation("impl-vs-spec", f"checked build panicked: {out[0][:120]} on `{op[:60]}` @ {case[0][:80]}", "", replay_ops=case[: oi + 1])
+                break
+            if op.startswith("moves u") and out and out[0].split(" ")[0].isdigit():
+                n = int(out[0].split(" ")[0])
+                stats["max_unchecked_list_length"] = max(stats["max_unchecked_list_length"], n)
+                if n > 256:
+                    rep.violation("impl-vs-spec", f"{n} pseudo-legal moves exceed the 256-entry buffer @ {case[0]}", "", replay_ops=case[: oi + 1])
+            if op == "obs" and out and "|" in out[0]:
+                maxlen = max(maxlen, int(out[0].split("|")[6]))
+            if op.startswith("new ") and out == ["ok"]:
+                kinds["accepted_positions"] += 1
+            if op.startswith("search "):
+                stats["searches"] += 1
+    stats["max_game_length_before_search"] = maxlen
+    finish_corr(rep, "C15", cases, first, rust, lean)
+    # self-play of unbounded length: must stop by itself below the stack capacity
+    t0 = time.time()
+    try:
+        p = subprocess.run([core.ENGINE, "auto", "1"], capture_output=True, text=True, timeout=180 if tier == "quick" else 900)
+        plies = p.stdout.count("Hash: ")
+        stats["selfplay_positions_printed"] = plies
+        if p.returncode != 0 or "panicked" in p.stderr:
+            rep.violation("impl-vs-spec", f"self-play ended abnormally after {plies} positions", p.stderr[-600:], replay_ops=["rustybait auto 1"])
+        if plies > 401:
+            rep.violation("impl-vs-spec", f"self-play ran to {plies} positions: no length guard", "", replay_ops=["rustybait auto 1"])
+    except subprocess.TimeoutExpired:
+        rep.violation("impl-vs-spec", "self-play did not end within the time limit", "", replay_ops=["rustybait auto 1"], no_input=True)
+    stats["selfplay_wall_s"] = int(time.time() - t0)
+    stats["cases"] = len(cases)
+    return stats, kinds, cases
